@@ -106,7 +106,9 @@ impl Translator {
                 self.bytes.push((line.clone(), vec![]));
             }
             Line::Label(label, _) => {
-                self.known_labels.insert(label.to_string(), self.next_addr);
+                // Labels are case-insensitive (the parser validates them that way)
+                self.known_labels
+                    .insert(label.to_lowercase(), self.next_addr);
                 self.bytes.push((line.clone(), vec![]));
             }
             Line::Instruction(inst, comment) => self.push_instruction(inst, comment),
@@ -156,7 +158,7 @@ impl Translator {
                 .collect(),
             AsmEquals(label, constant) => {
                 // Push Label!
-                self.known_labels.insert(label, constant);
+                self.known_labels.insert(label.to_lowercase(), constant);
                 vec![]
             }
             AsmStacksize(ss) => {
@@ -254,11 +256,11 @@ impl Translator {
                     .flat_map(|bol| match bol {
                         ByteOrLabel::Byte(byte) => vec![byte],
                         ByteOrLabel::Label(label) => vec![*labels
-                            .get(&label)
+                            .get(&label.to_lowercase())
                             .expect("infallible. Labels must be defined")],
                         ByteOrLabel::LabelFn(label, f) => {
                             let b = *labels
-                                .get(&label)
+                                .get(&label.to_lowercase())
                                 .expect("infallible. Labels must be defined");
                             vec![f.deref()(b)]
                         }
